@@ -204,11 +204,11 @@ struct StreamRx
 
 enum { K_CONNECT_ADDR = 0, K_CONNECT_NAME = 1, K_BIND = 2, K_UDP = 3 };
 enum { TS_REACH = 0, TS_REFUSE = 1, TS_UNRESOLVABLE = 2, TS_BINDFAIL = 3 };
-enum { ST_INIT = 0, ST_METHOD, ST_REPLY1, ST_REPLY2, ST_RELAY, ST_UDP, ST_FAILED_OK, ST_BROKEN };
+enum { ST_INIT = 0, ST_METHOD, ST_REPLY1, ST_REPLY2, ST_RELAY, ST_UDP, ST_FAILED_OK, ST_BROKEN, ST_ABANDONED };
 char const* kind_name(int k) { static char const* n[] = {"connect-addr", "connect-name", "bind", "udp-associate"}; return n[k]; }
 char const* ts_name(int t) { static char const* n[] = {"reachable", "refusing", "unresolvable", "bind-fails"}; return n[t]; }
 char const* stage_name(int s)
-{ static char const* n[] = {"not connected", "awaiting method reply", "awaiting reply", "awaiting second reply", "relaying", "udp relay up", "failure reply received", "broken"}; return n[s]; }
+{ static char const* n[] = {"not connected", "awaiting method reply", "awaiting reply", "awaiting second reply", "relaying", "udp relay up", "failure reply received", "broken", "abandoned by the client"}; return n[s]; }
 
 struct World;
 
@@ -242,6 +242,12 @@ struct Session
 	int reply_code[2] = {-1, -1}; ip::tcp::endpoint reply_ep[2];
 	std::uint64_t stray = 0;
 	bool judged = false; // a violation about this session's negotiation was already reported
+	// a client that walks away: 1 = end-of-file right after the request, 2 = after the (first) reply, 3 = garbage after
+	// the (first) reply, then end-of-file. Such a session has no oracle of its own; `chain` is a well-behaved session that
+	// wants the same resource (BIND address:port, UDP client endpoint) and is started chain_delay later (or at quiescence)
+	int abandon = 0; std::int64_t abandon_delay = 0; bool abandoned = false, started = false;
+	Session* chain = nullptr; std::int64_t chain_delay = 0;
+	std::string key_prefix; // reuse sessions report under their own keys
 	// target side
 	asio::io_context* tnode = nullptr; ip::address taddr; unsigned tport = 0;
 	std::unique_ptr<ip::tcp::acceptor> tacc;
@@ -275,6 +281,7 @@ struct Session
 	void client_got(std::uint8_t const* p, std::size_t n);
 	void final_check();
 	void force_close();
+	void do_abandon();
 	void viol(std::string const& key, std::string const& detail);
 };
 
@@ -442,12 +449,14 @@ void Sink::accept_next()
 // ---------------------------------------------------------------- well-behaved session
 void Session::viol(std::string const& key, std::string const& detail)
 {
-	R().violation(PROP, key, fmt("session %d (v%d %s, target %s): ", id, ver, kind_name(kind), ts_name(ts)) + detail
+	R().violation(PROP, key_prefix + key, fmt("session %d (v%d %s, target %s): ", id, ver, kind_name(kind), ts_name(ts)) + detail
 		+ " [" + desc + "]");
 }
 
 void Session::start()
 {
+	if (started) return;
+	started = true;
 	int const cmd = kind == K_BIND ? 1 : kind == K_UDP ? 2 : 0;
 	++w.valid_cmd[cmd];
 	cli.init(&w.ops, &w.rng, w.nc.get(), fmt("s%d.client", id), id * 4);
@@ -499,7 +508,12 @@ void Session::send_pieces(bool b)
 void Session::send_next_piece()
 {
 	std::vector<Bytes>& v = sending_b ? pieces_b : pieces_a;
-	if (piece_idx >= v.size()) { cli.on_wq_empty = nullptr; return; }
+	if (piece_idx >= v.size())
+	{
+		cli.on_wq_empty = nullptr;
+		if (abandon == 1 && (sending_b || pieces_b.empty())) do_abandon();
+		return;
+	}
 	std::size_t const gi = (sending_b ? pieces_a.size() : 0) + piece_idx;
 	std::int64_t const gap = gi < gaps.size() ? gaps[gi] : 0;
 	Bytes piece = v[piece_idx++];
@@ -580,6 +594,20 @@ void Session::handle_reply(int code, ip::tcp::endpoint ep)
 	int const which = stage == ST_REPLY1 ? 0 : 1;
 	reply_code[which] = code; reply_ep[which] = ep;
 	bool const ok = ver == 4 ? code == 90 : code == 0;
+	if (abandon >= 2 && which == 0 && ok && (kind == K_BIND || kind == K_UDP))
+	{
+		// got what it asked for and walks away (for UDP: after its datagrams, if any)
+		R().count("replies_checked");
+		if (kind == K_UDP) { stage = ST_UDP; start_udp(ep); }
+		if (abandon == 3)
+		{
+			Bytes junk(std::size_t(w.rng.range(1, 3000)));
+			for (auto& x : junk) x = std::uint8_t(w.rng.choose(256));
+			cli.send(junk);
+		}
+		do_abandon();
+		return;
+	}
 	VLOG("  s%d reply %d code %d ep %s:%d", id, which, code, ep.address().to_string().c_str(), ep.port());
 	R().count("replies_checked");
 	if (kind == K_CONNECT_ADDR || kind == K_CONNECT_NAME)
@@ -695,6 +723,20 @@ void Session::progress()
 	}
 }
 
+void Session::do_abandon()
+{
+	if (abandoned) return;
+	abandoned = true;
+	w.after(abandon_delay, [this]() {
+		VLOG("  s%d walks away (end-of-file) in stage '%s'", id, stage_name(stage));
+		stage = ST_ABANDONED;
+		cli.close();
+		if (usock) { error_code ec; API(usock->close(ec)); }
+		R().count(kind == K_BIND ? "bind_sessions_abandoned" : kind == K_UDP ? "udp_associations_abandoned" : "connect_sessions_abandoned");
+		if (chain) { Session* c = chain; w.after(chain_delay, [c]() { c->start(); }); }
+	});
+}
+
 void Session::force_close()
 {
 	cli.close();
@@ -736,6 +778,7 @@ void Session::udp_send_next()
 	w.after(dg[i].gap, [this, i]() {
 		Dgram& d = dg[i];
 		error_code ec;
+		if (stage == ST_ABANDONED) return;
 		API(usock->send_to(asio::buffer(d.raw.data(), d.raw.size()), relay, 0, ec));
 		R().count(d.hostile ? "hostile_udp_datagrams_sent" : "udp_datagrams_sent");
 		VLOG("  s%d udp -> relay: %s%s", id, hex(d.raw, 24).c_str(), d.hostile ? " (hostile)" : "");
@@ -841,8 +884,10 @@ void Session::client_got(std::uint8_t const* p, std::size_t n)
 // ---------------------------------------------------------------- verdict at quiescence
 void Session::final_check()
 {
+	if (abandon) return; // walked away on purpose; what matters is the session that comes after it
 	R().count("good_sessions");
 	if (w.any_hostile) R().count("good_sessions_next_to_hostile");
+	if (!key_prefix.empty()) R().count("reuse_sessions");
 	bool pass = !judged;
 	char const* outcome = kind == K_BIND ? (ts == TS_BINDFAIL ? "bind-fails" : "bind") : kind == K_UDP ? "udp-associate"
 		: ts == TS_REACH ? "connect-reachable" : ts == TS_REFUSE ? "connect-refusing" : "connect-unresolvable";
@@ -898,6 +943,7 @@ void Session::final_check()
 		if (!missing && !rmissing) R().count("udp_sessions_completed");
 		R().count("third_party_datagrams_relayed_to_client", third_party);
 	}
+	if (pass && !key_prefix.empty()) R().count(kind == K_BIND ? "bind_reuse_after_abandon_passed" : "udp_reuse_after_abandon_passed");
 	if (pass && w.any_hostile) R().count("good_sessions_next_to_hostile_passed");
 	if (pass) R().count("good_sessions_passed");
 }
@@ -966,6 +1012,8 @@ struct GoodOpt
 	int kind = -1, ts = -1, namelen = -1;
 	bool simple_greet = false, no_cuts = false;
 	bool shortnames = false; // allow 1- and 2-character host names in CONNECT requests
+	int bind_port = -1, bind_any = -1; // BIND: explicit port / 0.0.0.0 (1) or the proxy's address (0)
+	int uport = -1;                    // UDP ASSOCIATE: the client's UDP port
 };
 
 std::int64_t pick_gap(Rng& r)
@@ -1133,6 +1181,8 @@ Session* gen_good(World& w, GoodOpt const& o)
 	{
 		ip::address baddr = r.coin() ? ip::address(ip::address_v4::any()) : w.P;
 		unsigned bport = r.coin() ? 0 : unsigned(3000 + id);
+		if (o.bind_any >= 0) baddr = o.bind_any ? ip::address(ip::address_v4::any()) : w.P;
+		if (o.bind_port >= 0) bport = unsigned(o.bind_port);
 		if (s.ts == TS_BINDFAIL)
 		{
 			int const how = r.choose(3);
@@ -1145,7 +1195,7 @@ Session* gen_good(World& w, GoodOpt const& o)
 	}
 	else
 	{
-		s.uport = unsigned(5000 + id);
+		s.uport = o.uport >= 0 ? unsigned(o.uport) : unsigned(5000 + id);
 		ip::address const ha = r.coin() ? ip::address(ip::address_v4::any()) : w.C;
 		unsigned const hp = r.coin() ? 0 : s.uport;
 		s.req = req5(3, ha, hp);
@@ -1288,6 +1338,7 @@ void run_world(World& w, std::set<int> const& deferred)
 	}
 	if (!deferred.empty() || w.hostile)
 	{
+		for (auto& s : w.good) if (s->abandon && s->stage != ST_ABANDONED) { s->stage = ST_ABANDONED; s->force_close(); }
 		for (auto& s : w.good) if (deferred.count(s->id)) s->start();
 		w.runner->run();
 	}
@@ -1424,6 +1475,58 @@ void case_fields(Args const& a, std::uint64_t idx, Rng& rng)
 	run_world(w, deferred);
 }
 
+// ---------------------------------------------------------------- a client walks away, another one wants the same resource
+// kind: K_BIND or K_UDP. how: 1..3 = Session::abandon of the first client, 0 = the first client is well-behaved and
+// completes (BIND only: the port must be free again afterwards). chained: the second client starts a fixed virtual time
+// after the first one went away (long enough for the end-of-file to have reached the proxy on every generated network),
+// else at quiescence.
+void gen_abandon_pair(World& w, int kind, int how, bool chained, int bind_any, std::set<int>& deferred)
+{
+	Rng& r = w.rng;
+	GoodOpt o; o.small = true; o.kind = kind; o.ts = TS_REACH;
+	int const port = 3500 + r.choose(400);
+	if (kind == K_BIND) { o.bind_port = port; o.bind_any = bind_any; }
+	else o.uport = 5600 + r.choose(100);
+	Session* a = gen_good(w, o);
+	a->abandon = how;
+	a->abandon_delay = r.coin() ? 0 : pick_gap(r);
+	if (how && kind == K_UDP) { a->hostile_udp = true; if (r.coin()) a->dg.clear(); }
+	if (how) a->desc += fmt(" WALKS AWAY (%s)", how == 1 ? "end-of-file right after the request" : how == 2 ? "end-of-file after the reply" : "garbage, then end-of-file after the reply");
+	if (kind == K_BIND && r.coin(1, 3)) o.bind_any = 1 - bind_any; // same port through the other spelling of the address
+	Session* b = gen_good(w, o);
+	b->key_prefix = kind == K_BIND ? "reuse-after-abandon:" : "udp-reuse-after-abandon:";
+	if (!how) b->key_prefix = "reuse-after-complete:";
+	b->desc += how ? " (same resource as the session that walked away)" : " (same port as the completed session)";
+	deferred.insert(b->id);
+	if (how && chained)
+	{
+		a->chain = b;
+		static std::int64_t const d[] = {600000000, 1000000000, 3000000000};
+		a->chain_delay = d[r.choose(3)];
+		b->desc += fmt(" started %" PRId64 " ms later", a->chain_delay / 1000000);
+	}
+	else b->desc += " started at quiescence";
+	R().count(kind == K_BIND ? (how ? "bind_abandon_then_rebind_cases" : "bind_complete_then_rebind_cases") : "udp_abandon_then_reassociate_cases");
+}
+
+int const ABANDON_VARIANTS = 34, ABANDON_REPEAT = 3;
+void case_abandon(Args const& a, std::uint64_t idx, Rng& rng)
+{
+	int v = int(idx % ABANDON_VARIANTS);
+	World w(a, rng);
+	int kind, how, ver, any = 0; bool chained;
+	if (v < 24) { kind = K_BIND; ver = (v & 1) ? 4 : 5; v >>= 1; chained = v & 1; v >>= 1; any = v & 1; v >>= 1; how = 1 + v; }
+	else if (v < 30) { v -= 24; kind = K_UDP; ver = 5; chained = v & 1; how = 1 + (v >> 1); }
+	else { v -= 30; kind = K_BIND; ver = (v & 1) ? 4 : 5; any = (v >> 1) & 1; how = 0; chained = false; }
+	w.ver = ver;
+	w.desc = "abandon-then-reuse ";
+	setup_net(w);
+	w.build();
+	std::set<int> deferred;
+	gen_abandon_pair(w, kind, how, chained, any, deferred);
+	run_world(w, deferred);
+}
+
 // ---------------------------------------------------------------- mode: trunc (end-of-file / silence at every offset)
 std::uint64_t trunc_total(World* w0)
 {
@@ -1431,12 +1534,17 @@ std::uint64_t trunc_total(World* w0)
 	static std::size_t const lens[] = {13, 18, 13, 13, 9, 9, 265};
 	std::uint64_t t = 0;
 	for (auto l : lens) t += (l + 1) * 2;
-	return t;
+	return t + std::uint64_t(ABANDON_VARIANTS * ABANDON_REPEAT); // + the walk-away-then-reuse scenarios
 }
 
 void case_trunc(Args const& a, std::uint64_t idx, Rng& rng)
 {
 	static std::size_t const lens[] = {13, 18, 13, 13, 9, 9, 265};
+	if (idx >= trunc_total(nullptr) - std::uint64_t(ABANDON_VARIANTS * ABANDON_REPEAT))
+	{
+		case_abandon(a, idx - (trunc_total(nullptr) - std::uint64_t(ABANDON_VARIANTS * ABANDON_REPEAT)), rng);
+		return;
+	}
 	int b = 0;
 	while (idx >= (lens[b] + 1) * 2) { idx -= (lens[b] + 1) * 2; ++b; }
 	std::size_t const keep = std::size_t(idx / 2); bool const close_after = (idx % 2) == 0;
@@ -1547,7 +1655,21 @@ void case_random(Args const& a, std::uint64_t c, Rng& rng)
 {
 	(void)c;
 	World w(a, rng);
-	int const gen = rng.choose(9);
+	int const gen = rng.choose(11);
+	if (gen >= 9)
+	{
+		// walk away, then the same resource again; sometimes with an unrelated small session around
+		int const kind = rng.coin(2, 3) ? K_BIND : K_UDP;
+		w.ver = kind == K_UDP ? 5 : rng.coin(1, 3) ? 4 : 5;
+		w.desc = "abandon-then-reuse ";
+		setup_net(w);
+		w.build();
+		std::set<int> deferred;
+		gen_abandon_pair(w, kind, kind == K_BIND && rng.coin(1, 6) ? 0 : 1 + rng.choose(3), rng.coin(), rng.choose(2), deferred);
+		if (rng.coin(1, 3)) { GoodOpt o; o.small = true; gen_good(w, o); }
+		run_world(w, deferred);
+		return;
+	}
 	w.ver = (gen == 7 || gen == 8) ? 5 : rng.coin(1, 3) ? 4 : 5;
 	setup_net(w);
 	w.build();
